@@ -2,6 +2,7 @@ import LdkModel.Model.TlvFrame
 import LdkModel.Proofs.TlvFrame
 import LdkModel.Generated.TlvSchemas
 import LdkModel.Generated.TlvFieldPairs
+import LdkModel.Generated.EnumCodecs
 /-!
   C12 — persisted objects survive serialization unchanged: the FRAMING theorems.
 
@@ -369,6 +370,88 @@ example : fieldMismatches [(0, "w", "r", 2, (.field, "a"), (.field, "b")), (0, "
     = [("w", 2, (.field, "a"), (.field, "b")), ("w", 4, (.field, "b"), (.field, "a"))] := by decide
 example : writtenTwice [] [("w", [(2, "mpp_part.value"), (3, "mpp_part.value"), (6, "mpp_part.cltv_expiry")])] = [("w", "mpp_part.value")] := by decide
 example : writtenTwice [("w", "mpp_part.value")] [("w", [(2, "mpp_part.value"), (3, "mpp_part.value")])] = [] := by decide
+
+/-! ## hand-written enum byte codecs round trip (positional, non-TLV parts)
+
+  `enumCodecs` (Generated/EnumCodecs.lean, re-extracted on every check): variant -> byte of the write-side `match`,
+  byte -> variant of the read-side `match`, for the standalone `impl Writeable/Readable` pairs and the inline matches of
+  `FundedChannel::write/read`, `ChannelMonitor`, `HTLCSource`, ….  A writer arm that emits the byte of ANOTHER variant
+  (C12-r3: `EnabledStaged(_) => 0u8` — "announced disabled" written as "announced enabled") or a reader arm that
+  constructs another variant changes `read (write v)` and breaks the theorem. -/
+
+/-- The documented lossy normalisations, one by one: (codec, variant, variant it is read back as).
+    Everything not listed must read back as itself. -/
+def enumCanon : EnumCanon := [
+  -- channelmonitor.rs: "HolderForceClosedWithInfo" is written under the legacy id 1 (plus TLVs the reader uses to rebuild
+  -- it); the byte-level arm reads `HolderForceClosed`, the TLV-level code upgrades it when the info is present
+  ("MonitorEvent", "HolderForceClosedWithInfo", "HolderForceClosed"),
+  -- channel.rs ChannelUpdateStatus::write: "We only care about writing out the current state as it was announced, ie only
+  -- either Enabled or Disabled. In the case of DisabledStaged, we most recently announced the channel as enabled, so we
+  -- write 0. For EnabledStaged, we similarly write a 1."  The staged tick counters are dropped.
+  ("ChannelUpdateStatus", "DisabledStaged", "Enabled"),
+  ("ChannelUpdateStatus", "EnabledStaged", "Disabled"),
+  -- channel.rs AnnouncementSigsState::write: "We only care about writing out the current state as if we had just
+  -- disconnected, at which point we always set anything but AnnouncementSigsReceived to NotSent."
+  ("AnnouncementSigsState", "MessageSent", "NotSent"),
+  ("AnnouncementSigsState", "Committed", "NotSent"),
+  -- FundedChannel::write, OutboundHTLCState::RemoteRemoved: "Treat this as a Committed because we haven't received the CS -
+  -- they'll resend the claim/fail on reconnect"
+  ("OutboundHTLCState", "RemoteRemoved", "Committed"),
+  -- FundedChannel::write, HTLCUpdateAwaitingACK::FailMalformedHTLC: "We don't want to break downgrading by adding a new
+  -- variant, so write a dummy ::FailHTLC variant and write the real malformed error as an optional TLV" (type 43; the
+  -- reader turns the entry back into FailMalformedHTLC after the TLV stream)
+  ("HTLCUpdateAwaitingACK", "FailMalformedHTLC", "FailHTLC"),
+  -- channelmanager.rs HTLCSource: the TrampolineForward variant is written (id 2) but `HTLCSource::read` knows ids 0 and 1
+  -- only (UnknownRequiredFeature): trampoline forwarding is not reachable yet; listed by the translator as unread writer
+  ("HTLCSource", "TrampolineForward", "!")]
+
+/-- read (write v) = canon v for every variant of every hand-written enum byte codec -/
+theorem enum_codec_roundtrip :
+    ∀ t ∈ codecRoundtrips enumCodecs, t.2.2 = canonOf enumCanon t.1 t.2.1 := by decide +kernel
+
+/-- … and the normalisation list is exact: precisely the variants that do not read back as themselves -/
+theorem enum_canon_exact : codecLossy enumCodecs = enumCanon := by decide +kernel
+
+/-- two variants that must stay distinguishable after a reload (different canonical variants) are never written as the
+    same byte — in particular announced-enabled (`Enabled`, `DisabledStaged`) vs announced-disabled (`Disabled`,
+    `EnabledStaged`) -/
+theorem enum_codec_distinguishes :
+    ∀ c ∈ enumCodecs, ∀ w1 ∈ EnumCodec.writes c, ∀ w2 ∈ EnumCodec.writes c,
+      canonOf enumCanon (EnumCodec.name c) w1.1 ≠ canonOf enumCanon (EnumCodec.name c) w2.1 → w1.2 ≠ w2.2 := by decide +kernel
+
+/-- bytes a reader still accepts although its writer never emits them (legacy encodings), pinned -/
+theorem enum_codec_read_only_bytes : codecReadOnly enumCodecs = [
+    ("OutboundHTLCState", 2, "RemoteRemoved"),   -- written as Committed (1) since the state is re-derived on reconnect
+    ("HTLCFailureMsg", 2, "Relay"),              -- ids 2 / 3: the length-prefixed TLV forms read since 0.0.x, ids 0 / 1 written
+    ("HTLCFailureMsg", 3, "Malformed")] := by decide +kernel
+
+/-- the codecs found in the current source (a codec whose `match` changes shape disappears from the table: pinned) -/
+theorem enum_codecs_present : enumCodecs.map EnumCodec.name =
+    ["MonitorEvent", "ChannelUpdateStatus", "AnnouncementSigsState", "InboundHTLCState", "InboundHTLCRemovalReason",
+     "OutboundHTLCState", "HTLCUpdateAwaitingACK", "RAACommitmentOrder", "HTLCFailureMsg", "HTLCSource"] := by decide +kernel
+
+example : codecLossy [("S", [("Enabled", 0), ("DisabledStaged", 0), ("EnabledStaged", 0), ("Disabled", 1)], [(0, "Enabled"), (1, "Disabled")])]
+    = [("S", "DisabledStaged", "Enabled"), ("S", "EnabledStaged", "Enabled")] := by decide   -- the C12-r3 slip reads back as Enabled
+example : canonOf enumCanon "ChannelUpdateStatus" "EnabledStaged" = "Disabled" ∧ canonOf enumCanon "ChannelUpdateStatus" "Enabled" = "Enabled" := by decide
+
+/-- The straight-line positional parts of the three big hand-written serializers: the common subsequence of the field
+    names written (`self.….x.write(writer)`) and of the variables read (`let x = Readable::read(reader)?`), pinned.  Two
+    positional fields swapped on one side shorten the common subsequence.  (Names only; loops, version branches and
+    renamed fields are outside it.) -/
+theorem positional_common_exact : positionalCommon = [
+    ("FundedChannel", ["user_id_low", "channel_id", "latest_monitor_update_id", "destination_script",
+      "counterparty_next_commitment_transaction_number", "value_to_self_msat", "monitor_pending_channel_ready",
+      "monitor_pending_revoke_and_ack", "monitor_pending_commitment_signed", "holding_cell_update_fee", "next_holder_htlc_id",
+      "update_time_counter", "feerate_per_kw", "funding_tx_confirmed_in", "funding_tx_confirmation_height", "short_channel_id",
+      "counterparty_dust_limit_satoshis", "holder_dust_limit_satoshis", "counterparty_max_htlc_value_in_flight_msat",
+      "counterparty_htlc_minimum_msat", "holder_htlc_minimum_msat", "counterparty_max_accepted_htlcs", "funding_transaction",
+      "counterparty_next_commitment_point", "counterparty_current_commitment_point", "counterparty_node_id",
+      "counterparty_shutdown_scriptpubkey", "commitment_secrets", "channel_update_status"]),
+    ("ChannelManager", ["chain_hash", "short_channel_id", "payment_hash", "peer_pubkey", "latest_features", "session_priv"]),
+    ("ChannelMonitor", ["latest_update_id", "commitment_transaction_number_obscure_factor", "destination_script",
+      "counterparty_payment_script", "script", "channel_keys_id", "holder_revocation_basepoint",
+      "current_counterparty_commitment_txid", "prev_counterparty_commitment_txid", "counterparty_commitment_params",
+      "channel_value_satoshis", "commitment_secrets", "txid", "lockdown_from_offchain", "holder_tx_signed"])] := by decide +kernel
 
 /-! ## enum variant ids -/
 
